@@ -321,7 +321,14 @@ impl Norm {
     fn lower_iter(&mut self, it: &Iter, pre: &mut Vec<Stmt>) -> Option<(Ident, Expr, Expr, Expr, String)> {
         let mut ads = it.adapters.clone();
         let Src::Index { base, by_ref } = &it.src else { return None };
-        let base = self.bind_simple(base.clone(), "src", pre);
+        // owned sources (for x in v / v.into_iter() / f(..)) are always moved into `__src_<hint>`, so the
+        // side-car can name the iterated sequence whatever expression produced it
+        let base = if *by_ref { self.bind_simple(base.clone(), "src", pre) } else {
+            let v = self.fresh("src");
+            let b = base.clone();
+            pre.push(parse_quote!(let #v = #b;));
+            parse_quote!(#v)
+        };
         let idx = self.fresh("i");
         let mut hi: Expr = parse_quote!(#base.len());
         let mut lo: Expr = parse_quote!(0);
